@@ -3335,7 +3335,16 @@ class UTPM(Ring, RawAlgorithmsMixIn):
         cls._iouter(x.data, y.data, out.data)
         return out
 
-    def reshape(self,  newshape, order = 'C'):
+    def reshape(self, *newshape, **kwargs):
+        # x.reshape((2,3)), x.reshape(2,3) (as ndarray.reshape) and
+        # reshape(x, (2,3), 'C') (as numpy.reshape)
+        order = kwargs.pop('order', 'C')
+        if kwargs:
+            raise TypeError('unexpected keyword arguments %s'%list(kwargs))
+        if len(newshape) == 2 and isinstance(newshape[1], str):
+            newshape, order = newshape
+        elif len(newshape) == 1:
+            newshape = newshape[0]
         if order != 'C':
             raise NotImplementedError('should implement that')
         cls = self.__class__
